@@ -47,49 +47,206 @@ def skeleton(fn, amap):
     return feats
 
 
+def _lsub(l, var, val):
+    """Substitute Lin `val` for atom `var` in Lin `l`."""
+    c = l.t.get(var, 0)
+    rest = Lin({k: v for k, v in l.t.items() if k != var}, l.c)
+    return rest + val.scale(c)
+
+
+def level_formula(fn, side):
+    """Semantic normal form of a level formula (trainer find_omen_level / scorer OmenScorer.parse):
+
+        level = LN(len) + IP(pw[ip_lo:ip_hi]) + sum over v = v0..v1 of CP(pw[a(v):b(v)])
+
+    returns {'guards', 'handlers', 'ln', 'ip': (lo, hi), 'first_window', 'last_window', 'stride', 'width', 'cp', 'returns'}
+    with all positions as linear forms over NG (n-gram size) and LEN (string length); 'error' when something is not understood.
+    Accepts the while form (v = e0; while v <= X: ...; v += 1) and the for form (for v in range(..)), windows written directly or
+    through a temporary."""
+    feats = {}
+    ps = params(fn)
+    pw = 'password'
+    owner = ps[0]
+    alias = {'%s.ngram' % owner: 'NG', 'ngram': 'NG', 'self.ngram': 'NG', 'pw_len': 'LEN', 'pass_len': 'LEN', 'len(%s)' % pw: 'LEN'}
+
+    def aa(key, node):
+        return alias.get(key, key)
+
+    def norm(node):
+        t = U(node)
+        for k in sorted(alias, key=len, reverse=True):
+            t = t.replace(k, alias[k])
+        t = t.replace('%s.min_length' % owner, 'MINLEN').replace('%s.max_length' % owner, 'MAXLEN').replace('self.max_len', 'MAXLEN')
+        return t
+    body = [s_ for s_ in fn.body if not (isinstance(s_, ast.Expr) and isinstance(s_.value, ast.Constant))]
+    guards = [s_ for s_ in body if isinstance(s_, ast.If) and s_.body and isinstance(s_.body[-1], ast.Return) and const(s_.body[-1].value) == -1]
+    feats['guards'] = sorted(norm(g.test) for g in guards)
+    tries = [s_ for s_ in body if isinstance(s_, ast.Try)]
+    if len(tries) != 1:
+        feats['error'] = 'no single try block'
+        return feats
+    t = tries[0]
+    feats['handlers'] = sorted('%s -> %s' % (U(h.type), norm(h.body[-1])) for h in t.handlers)
+    tb = t.body
+    rets = [s_ for s_ in tb if isinstance(s_, ast.Return)]
+    if len(rets) != 1 or not (isinstance(rets[0].value, ast.BinOp) and isinstance(rets[0].value.op, ast.Add)
+                              and isinstance(rets[0].value.left, ast.Name) and isinstance(rets[0].value.right, ast.Name)):
+        feats['error'] = 'return is not the sum of two accumulators'
+        return feats
+    feats['returns'] = 'sum of two accumulators'
+    n1, n2 = rets[0].value.left.id, rets[0].value.right.id
+    straight = {}
+    order = []
+    for s_ in tb:
+        if isinstance(s_, ast.Assign) and len(s_.targets) == 1 and isinstance(s_.targets[0], ast.Name):
+            straight.setdefault(s_.targets[0].id, []).append(s_.value)
+            order.append(s_.targets[0].id)
+    loops = [s_ for s_ in tb if isinstance(s_, (ast.While, ast.For))]
+    if len(loops) != 1:
+        feats['error'] = '%d loops in the formula' % len(loops)
+        return feats
+    lp = loops[0]
+    accs = [s_ for s_ in lp.body if isinstance(s_, ast.AugAssign) and isinstance(s_.op, ast.Add) and isinstance(s_.target, ast.Name)
+            and s_.target.id in (n1, n2)]
+    if len(accs) != 1:
+        feats['error'] = 'no single accumulation in the loop'
+        return feats
+    chain = accs[0].target.id
+    lnv = n2 if chain == n1 else n1
+    if len(straight.get(lnv, [])) != 1 or len(straight.get(chain, [])) != 1:
+        feats['error'] = 'accumulators are not initialised exactly once'
+        return feats
+    feats['ln'] = norm(straight[lnv][0])
+
+    def resolve(e, scope_assigns):
+        # inline a temporary bound once in the same statement list
+        if isinstance(e, ast.Name) and len(scope_assigns.get(e.id, [])) == 1:
+            return scope_assigns[e.id][0]
+        return e
+
+    def window_of(e, scope_assigns):
+        """(lo, hi) of the password slice inside e, and e with the slice replaced by W."""
+        import copy as _cp
+        e = _cp.deepcopy(e)
+        found = []
+
+        class R(ast.NodeTransformer):
+            def visit_Name(self, n):
+                r = resolve(n, scope_assigns)
+                if r is not n and isinstance(r, ast.Subscript) and isinstance(r.slice, ast.Slice) and U(r.value) == pw:
+                    found.append(r)
+                    return ast.Name(id='W', ctx=ast.Load())
+                return n
+
+            def visit_Subscript(self, n):
+                if isinstance(n.slice, ast.Slice) and U(n.value) == pw:
+                    found.append(n)
+                    return ast.Name(id='W', ctx=ast.Load())
+                self.generic_visit(n)
+                return n
+        e2 = R().visit(e)
+        if not found or any(U(f) != U(found[0]) for f in found):
+            return None, None, None
+        sl = found[0].slice
+        lo = lin(sl.lower, None, aa) if sl.lower is not None else Lin({}, 0)
+        hi = lin(sl.upper, None, aa) if sl.upper is not None else Lin({'LEN': 1}, 0)
+        return lo, hi, U(e2)
+    lo, hi, shape = window_of(straight[chain][0], straight)
+    if lo is None:
+        feats['error'] = 'initial n-gram lookup is not a lookup of a slice of the password'
+        return feats
+    feats['ip'] = (repr(lo), repr(hi))
+    feats['ip_lookup'] = norm(ast.parse(shape, mode='eval').body)
+    # loop variable domain
+    if isinstance(lp, ast.While):
+        tcmp = lp.test
+        if not (isinstance(tcmp, ast.Compare) and len(tcmp.ops) == 1 and isinstance(tcmp.left, ast.Name) and isinstance(tcmp.ops[0], (ast.LtE, ast.Lt))):
+            feats['error'] = 'loop condition ' + U(tcmp)
+            return feats
+        v = tcmp.left.id
+        v1 = lin(tcmp.comparators[0], None, aa)
+        if isinstance(tcmp.ops[0], ast.Lt):
+            v1 = v1 + Lin({}, -1)
+        if len(straight.get(v, [])) != 1:
+            feats['error'] = 'loop variable not initialised once'
+            return feats
+        v0 = lin(straight[v][0], None, aa)
+        steps = [s_ for s_ in lp.body if isinstance(s_, ast.AugAssign) and U(s_.target) == v]
+        if len(steps) != 1 or not (isinstance(steps[0].op, ast.Add) and const(steps[0].value) == 1) or steps[0] is not lp.body[-1] \
+                or any(isinstance(x, (ast.Continue, ast.Break)) for s_ in lp.body for x in ast.walk(s_)):
+            feats['error'] = 'loop step'
+            return feats
+    else:
+        if not (isinstance(lp.target, ast.Name) and isinstance(lp.iter, ast.Call) and call_name(lp.iter) == 'range' and 1 <= len(lp.iter.args) <= 2) \
+                or any(isinstance(x, (ast.Continue, ast.Break)) for s_ in lp.body for x in ast.walk(s_)):
+            feats['error'] = 'loop header ' + U(lp.iter)
+            return feats
+        v = lp.target.id
+        if len(lp.iter.args) == 1:
+            v0, v1 = Lin({}, 0), lin(lp.iter.args[0], None, aa) + Lin({}, -1)
+        else:
+            v0, v1 = lin(lp.iter.args[0], None, aa), lin(lp.iter.args[1], None, aa) + Lin({}, -1)
+    body_assigns = {}
+    for s_ in lp.body:
+        if isinstance(s_, ast.Assign) and len(s_.targets) == 1 and isinstance(s_.targets[0], ast.Name):
+            body_assigns.setdefault(s_.targets[0].id, []).append(s_.value)
+    a_, b_, cshape = window_of(accs[0].value, body_assigns)
+    if a_ is None or v0 is None or v1 is None:
+        feats['error'] = 'transition lookup is not a lookup of a slice of the password'
+        return feats
+    feats['stride'] = (a_.t.get(v, 0), b_.t.get(v, 0))
+    feats['first_window'] = (repr(_lsub(a_, v, v0)), repr(_lsub(b_, v, v0)))
+    feats['last_window'] = (repr(_lsub(a_, v, v1)), repr(_lsub(b_, v, v1)))
+    feats['width'] = repr(b_ - a_)
+    feats['cp_lookup'] = norm(ast.parse(cshape, mode='eval').body)
+    return feats
+
+
 def r1_formula_skeleton(ctx, rule):
     tf = ctx.fn(FOL)
     sf = ctx.fn(SCP)
     tp = params(tf)
-    tmap = [('%s.ngram' % tp[0], 'NG'), ('ngram', 'NG'), ('pw_len', 'LEN'),
-            ('%s.ln_lookup[LEN - 1][0]' % tp[0], 'LN(LEN)'),
-            ("%s.grammar[chunk]['ip_level']" % tp[0], 'IP(chunk)'),
-            ("%s.grammar[chunk[:-1]]['next_letter'][chunk[-1]][0]" % tp[0], 'CP(chunk)'),
-            ('%s.min_length' % tp[0], 'MINLEN'), ('%s.max_length' % tp[0], 'MAXLEN')]
-    smap = [('self.ngram', 'NG'), ('pass_len', 'LEN'), ('self.ln[LEN]', 'LN(LEN)'), ('self.ip[chunk]', 'IP(chunk)'),
-            ('self.cp[chunk]', 'CP(chunk)'), ('self.max_len', 'MAXLEN')]
-    a = skeleton(tf, tmap)
-    b = skeleton(sf, smap)
-    # the trainer binds ngram to a local first
-    a['straight'] = [s for s in a.get('straight', []) if s != 'NG = NG']
+    a = level_formula(tf, 'trainer')
+    b = level_formula(sf, 'scorer')
+    facts = {'trainer': a, 'scorer': b}
+    if 'error' in a or 'error' in b:
+        ctx.unk(rule, FOL if 'error' in a else SCP, 'level formula not understood: %s' % (a.get('error') or b.get('error')), facts)
+        min_length_resolution(ctx, rule)
+        return
+    # side-specific spellings of the three table lookups
+    want_a = {'ln': '%s.ln_lookup[LEN - 1][0]' % tp[0], 'ip_lookup': "%s.grammar[W]['ip_level']" % tp[0],
+              'cp_lookup': "%s.grammar[W[:-1]]['next_letter'][W[-1]][0]" % tp[0]}
+    want_b = {'ln': 'self.ln[LEN]', 'ip_lookup': 'self.ip[W]', 'cp_lookup': 'self.cp[W]'}
+    diffs = []
+    for side, f, want, q in (('trainer', a, want_a, FOL), ('scorer', b, want_b, SCP)):
+        for k, w in want.items():
+            if f.get(k) != w:
+                diffs.append((q, '%s %s = %s (expected %s)' % (side, k, f.get(k), w)))
     # lower guard: MINLEN (= max(default 1, ngram) = ngram) on the trainer side, NG on the scorer side
     ag = [g.replace('MINLEN', 'NG') for g in a.get('guards', [])]
-    facts = {'trainer': a, 'scorer': b}
-    diffs = []
     if ag != b.get('guards'):
-        diffs.append(('length guard', ag, b.get('guards')))
-    for key in ('straight', 'loop_cond', 'loop_body', 'returns', 'handlers'):
+        diffs.append((SCP, 'length guard: trainer %s / scorer %s' % (ag, b.get('guards'))))
+    for key in ('handlers', 'ip', 'first_window', 'last_window', 'stride', 'width'):
         if a.get(key) != b.get(key):
-            diffs.append((key, a.get(key), b.get(key)))
-    if 'error' in a or 'error' in b:
-        ctx.unk(rule, FOL, 'level formula is not in the expected try/while shape', facts)
-        return
+            diffs.append((SCP, '%s differs: trainer %s / scorer %s' % (key, a.get(key), b.get(key))))
+    shape = {'ip': ('0', 'NG + -1'), 'first_window': ('0', 'NG'), 'last_window': ('LEN + -1*NG', 'LEN'), 'stride': (1, 1), 'width': 'NG'}
+    for key, w in shape.items():
+        got = b.get(key)
+        if key == 'last_window' and got is not None:
+            ok_lw = got[1] == 'LEN' and got[0] in ('LEN + -1*NG', '-1*NG + LEN')
+            if not ok_lw:
+                diffs.append((SCP, 'last transition window %s (expected [LEN-NG : LEN])' % (got,)))
+        elif key == 'ip' and got is not None:
+            if got[0] != '0' or got[1] not in ('NG + -1', '-1 + NG'):
+                diffs.append((SCP, 'initial n-gram window %s (expected [0 : NG-1])' % (got,)))
+        elif got != w:
+            diffs.append((SCP, '%s = %s (expected %s)' % (key, got, w)))
     if diffs:
-        for key, x, y in diffs:
-            ctx.bad(rule, SCP, '%s differs: trainer %s / scorer %s' % (key, x, y),
-                    'the scorer must compute the level with the same formula as the trainer third pass (length level + initial '
-                    'n-gram level + sum of transition levels over the same windows, -1 on the same conditions)', facts, sf)
+        for q, d in diffs:
+            ctx.bad(rule, q, d, 'trainer and scorer must compute the level with the same formula: LN(len) + IP(s[0:n-1]) + sum of '
+                    'CP over every n-gram window [e-n:e] for e = n .. len, -1 on the same conditions', facts, sf if q == SCP else tf)
     else:
-        ctx.ok(rule, SCP, 'find_omen_level and OmenScorer.parse have the same skeleton under the attribute map', facts)
-    # concrete shape of the shared skeleton
-    want_loop = ['chunk = password[end_pos - NG:end_pos]', 'chain_level += CP(chunk)', 'end_pos += 1']
-    want_str = ['ln_level = LN(LEN)', 'chunk = password[0:NG - 1]', 'chain_level = IP(chunk)', 'end_pos = NG']
-    if b.get('loop_body') != want_loop or b.get('straight') != want_str or b.get('loop_cond') != 'end_pos <= LEN' \
-            or b.get('returns') != ['ln_level + chain_level']:
-        ctx.bad(rule, SCP, 'level formula shape %s' % b, 'level = LN(len) + IP(first n-1) + sum of CP over every n-gram window '
-                '[end-n:end] for end = n .. len', facts, sf)
-    else:
-        ctx.ok(rule, SCP, 'level = LN(len) + IP(s[0:n-1]) + sum CP(s[e-n:e]) for e = n..len; KeyError -> -1', facts)
+        ctx.ok(rule, SCP, 'level = LN(len) + IP(s[0:n-1]) + sum CP(s[e-n:e]) for e = n..len on both sides; KeyError -> -1', facts)
     min_length_resolution(ctx, rule)
 
 
